@@ -47,6 +47,10 @@ def run_case(case, opts):
             ev.append({"c": "StateEq", "a": c["a"], "b": c["b"], "out": out})
             if out.get("val") != c["val"]:
                 mismatch.append(i)
+        elif k == "Edit":
+            e = pylib.apply_edit(dom, states[c["s"]], c["how"], c["fact"][0], list(c["fact"][1]))
+            e.update({"c": "EditState", "s": c["s"]})
+            ev.append(e)
         elif k == "NewOp":
             ops[c["op"]] = pylib.new_operator(dom, c["act"], list(c["args"]), objects)
             ev.append({"c": "NewOperator", "h": c["op"], "d": "d", "u": "u", "act": c["act"], "args": list(c["args"])})
